@@ -55,7 +55,8 @@ RULES = {
     "although they are not part of it",
     "R12": "free text is carried, not rewritten: inside the deserialize functions a string read from the proto (a name, a "
     "doc string, an external-data location, a metadata value …) is never passed through a rewriting operation that is not "
-    "idempotent (replace, removeprefix/removesuffix, translate, re.sub, expandtabs, slicing) on its way into the IR - the "
+    "idempotent (replace, removeprefix/removesuffix, translate, re.sub, expandtabs, slicing) on its way into the IR, and no number of the proto "
+    "is tested for its magnitude (`dim_value < 0`) to be replaced - the "
     "serializer writes the rewritten text back, the next deserialization rewrites it again, and for inputs where one pass "
     "creates a new match (`....//x` → `../x` → `x`) the serialized form is not a fixed point",
 }
@@ -604,6 +605,9 @@ def _proto_text_names(ctx, f: FuncInfo) -> set[str]:
         root = e
         while isinstance(root, (ast.Attribute, ast.Subscript)) or (isinstance(root, ast.Call) and isinstance(root.func, ast.Attribute)):
             root = root.value if not isinstance(root, ast.Call) else root.func.value
+        if isinstance(e, ast.Call) and (dotted_of(e.func) or "") in ("_get_field", "getattr") and e.args:
+            return protoish(e.args[0]) or (isinstance(e.args[0], ast.Name) and (e.args[0].id in tainted or any(
+                a[0].startswith("proto") for a in ty.type_of(f, e.args[0]))))
         if not isinstance(root, ast.Name) or root is e:
             return False
         if root.id in tainted:
@@ -653,6 +657,13 @@ def rule_r12(ctx):
                 elif isinstance(x, ast.Subscript) and isinstance(x.slice, ast.Slice) and isinstance(getattr(x, "ctx", None), ast.Load) and text(x.value) \
                         and _is_text_field(ctx, g, x.value):
                     bad = x
+                if isinstance(x, ast.Compare) and any(isinstance(o, (ast.Lt, ast.Gt, ast.LtE, ast.GtE)) for o in x.ops) and not in_message(x) \
+                        and any(text(sd) for sd in [x.left] + x.comparators):
+                    ctx.check("R12", f"{g.local}: `{norm(x)[:60]}` decides by the magnitude of a number read from the proto", False, g, x,
+                              f"`{norm(x)[:70]}` lets the reader treat a number of the proto differently depending on its size (a negative dimension becomes an unknown one): "
+                              "another path that takes the same number as it is (the dims of an initializer's tensor) keeps it, the serializer writes it back, and the next "
+                              "round trip reads it through this test - the serialized form is not a fixed point",
+                              how="ordering comparisons (<, <=, >, >=) on expressions rooted at a proto-typed name in the deserialize functions", construct=f"magnitude test {norm(x)[:40]}")
                 if bad is not None and not in_message(bad):
                     ctx.check("R12", f"{g.local}: {norm(bad)[:70]} rewrites text read from the proto", False, g, bad,
                               f"`{norm(bad)[:90]}` rewrites a string of the proto with an operation that is not idempotent: the serializer writes the result back and "
